@@ -9,6 +9,17 @@ NOTE = old_checks["C12"]["level_note"]
 TECH = "Lean 4 theorem about an executable model + regenerated facts + differential correspondence"
 
 LEVEL = {
+ "C08": "Lean 4 theorems over a model of the indexed-BMP reader/writer/factories: the pitch law for all widths, read => valid (non-negative width, "
+        "|height| rows of the minimal 4-byte multiple, palette <= 2^depth), write->read preserves geometry, palette and meaningful pixel bytes with "
+        "zero padding, factory round trips for depths 1/4/8 and any dimensions, InvertScanLines reverses rows / negates height / is an involution; "
+        "CalcPixelByteWidth and CalculatePitch regenerated from the clang AST and proved equal to the model on the whole int32 x uint16 range; "
+        "field dumps and written bytes of the real BitmapFile compared with the compiled model over every residue of row bits mod 32, both "
+        "orientations, full and partial palettes, files not written by the library",
+ "C09": "Lean 4 theorems: writeCustom f = frozen Spec.encode (picture f) (so the bytes are a function of the picture alone and match the independent "
+        "description), custom-format round trip to the top-down picture, same picture from a standard BMP, the detector looks only at the four "
+        "signature bytes and does not move the stream (through the C12 reader model), invalid pictures refused on save and load; 34 measured "
+        "layout facts and default constants bridged; real TilesetLoader on heights 0..1024, both orientations, distinct palettes, partial-palette "
+        "BMP sources against the compiled model and byte-for-byte against the reference encoder",
  "C17": "Lean 4 theorems over a model of ArchiveFile::GetIndex/Contains and ResourceManager with the directory layout, archive load order and "
         "pattern predicate as parameters: contains <-> index, the index names an equal member, lookup invariant under PathsAreEqual-equal "
         "spellings (case), duplicate-free => index(name i) = i, out-of-range refused; resolution stated outright (rooted refused, loose file "
@@ -38,7 +49,8 @@ LEVEL = {
         "input = encoding of the result ++ rest, write->read identity, byte stability, canonical palette headers => write = consumed bytes, "
         "palette order BGR in file / RGB in memory, writer refuses rule violations, write = frozen Spec.encode; full structural dumps of the real "
         "ArtFile and written bytes compared with the compiled model over reference-encoded files with all flag combinations and layer counts",
- "C11": "Lean 4 theorems (PRT part; bitmap/tileset part pending integration): loader outcome depends on the consumed prefix only, every proper "
+ "C11": "Lean 4 theorems for the three loaders (bitmap, tileset in both formats, PRT): no fault on load for every byte string (checked abs / negate / "
+        "pitch arithmetic), every public operation and every sequence of them on a returned object is fault-free, every proper prefix refused; PRT: loader outcome depends on the consumed prefix only, every proper "
         "prefix refused, on every loaded object image extraction by any index against any pixel file never reaches a fault, index >= count is an "
         "ordinary error; forked ASan/UBSan runs over prefixes, field x boundary corruptions and every follow-up operation on every returned object",
  "C20": "Lean 4 refusal implications with converse non-vacuity lemmas: VOL member >= 2^31 bytes or accumulated offset beyond 32 bits refused before "
